@@ -13,6 +13,9 @@ R06.4 every analytic operator of the grammar has an SQL template or an explicit 
       (first_value/last_value, lag/lead) have templates of the same shape
 R06.5 the window type and bound keywords are mapped as VTL defines them (data points -> ROWS, range -> RANGE; unbounded /
       current data point / n preceding|following), decided by evaluating visit_Windowing's bound formatter over all shapes
+R06.6 the AST constructor (visitWindowingClause, evaluated by E6 over every pair of written limits) hands on the limits in frame order:
+      two limits on the same side are ordered (3 preceding … 1 preceding; 1 following … 3 following) whichever way they were written,
+      a frame written in order is kept, two unbounded limits on the same side are rejected
 Not decided: the values DuckDB computes for a given OVER clause.
 """
 from __future__ import annotations
@@ -198,5 +201,55 @@ def run(rep: Report, tier: str) -> None:  # noqa: C901
                         rep.add(transp.fnd("R06.5", key + "/interval", vw, vw.node.lineno,
                                            f"RANGE frame over a Date ordering is written `{got}`: DuckDB needs an INTERVAL offset for a date ORDER BY (an integer offset is a binder error)"))
     rep.floor("R06.5 frames evaluated", n_frames, 150)
+
+    # ---- R06.6 the AST constructor hands visit_Windowing a frame whose limits are in frame order ----
+    rep.rule("R06.6", "AST constructor: the two written window limits become (start, stop) in frame order when both lie on the same side; a frame written in order is kept")
+    fw = P.func("vtlengine.AST.ASTConstructorModules.Terminals.Terminals.visitWindowingClause")
+
+    class _Tok:
+        def __init__(self, text: str) -> None:
+            self.text, self.start_line = text, 1
+
+    class _Item:
+        def __init__(self, pair) -> None:
+            self.pair, self.start_line, self.text = pair, 1, "x"
+    written = [(-1, "preceding"), (-1, "following"), (0, "current")] + [(k, d) for k in (1, 2, 3) for d in ("preceding", "following")]
+
+    def off_written(nm) -> int:
+        n_, m_ = nm
+        if m_ == "current":
+            return 0
+        if n_ == -1:
+            return -INF if m_ == "preceding" else INF
+        return -n_ if m_ == "preceding" else n_
+    n66 = 0
+    for kw in ("data", "range"):
+        for a in written:
+            for b in written:
+                kids = ([_Tok(kw), _Tok("points"), _Tok("between"), _Item(a), _Tok("and"), _Item(b)] if kw == "data" else [_Tok(kw), _Tok("between"), _Item(a), _Tok("and"), _Item(b)])
+                ext6 = {"self.visitLimitClauseItem": lambda c: c.pair, "extract_token_info": lambda c: {}, "Windowing": lambda **k: k}
+                try:
+                    r6 = Interp(P, externals=ext6).call(fw, {"self": object(), "ctx": sm.MNode("ctx", children=kids)})
+                    got6 = (offset(r6["start"], r6["start_mode"]), offset(r6["stop"], r6["stop_mode"]))
+                except Raised:
+                    got6 = None
+                except Unmodelled as e:
+                    raise AnalysisError(f"R06.6: visitWindowingClause outside the evaluator's language: {e}")
+                oa, ob = off_written(a), off_written(b)
+                same_side = a[1] == b[1] and a[1] != "current"
+                if not (same_side or oa <= ob):
+                    continue  # limits written in reverse across the current datapoint: not a frame; not decided here
+                if same_side and oa == ob and abs(oa) == INF:
+                    want6 = None  # both limits unbounded on the same side: rejected
+                else:
+                    want6 = (min(oa, ob), max(oa, ob))
+                n66 += 1
+                key6 = f"constructor/{kw}/{a[0]}-{a[1]}..{b[0]}-{b[1]}"
+                rep.instance("R06.6", key6, sample={"frame": got6})
+                if got6 != want6:
+                    rep.add(transp.fnd("R06.6", key6, fw, fw.node.lineno,
+                                       f"`{kw} between {a[0]} {a[1]} and {b[0]} {b[1]}` (-1 = unbounded, 0 = current data point) is built as the frame {got6}; "
+                                       f"expected {want6 if want6 is not None else 'a rejection'} (offsets relative to the current datapoint, start <= stop)"))
+    rep.floor("R06.6 written frames evaluated", n66, 80)
     rep.assumptions = ["DuckDB's window functions of the same name implement the VTL analytic operators over the given OVER clause",
                        "grammar alternative <-> constructor method pairing (ANTLR naming)"]
